@@ -533,7 +533,7 @@ fn call_and_judge(
         new_artifact: None,
         violated: false,
     };
-    let before = store.log_bytes();
+    let before = store.log_bytes_settled();
     let blobs_before = list_blobs(store);
     let mut expect = if parent_exists { expect_for(parent, sel) } else { Expect::Reject };
     if let (Op::Handoff, Some(s)) = (op, sum) {
@@ -543,7 +543,7 @@ fn call_and_judge(
     }
     let title = Some(format!("t-{}", sel.class));
     let res = do_call(rt, app, stats, op, http, &parent.id, sel, sum, title);
-    let after = store.log_bytes();
+    let after = store.log_bytes_settled();
     r.eval();
     stats.calls_reached_store += 1;
     let transport = if http { "http" } else { "api" };
@@ -951,7 +951,7 @@ fn one_case(cfg: &Cfg, r: &mut Report, rt: &tokio::runtime::Runtime, rng: &mut R
         }
         // parent: mostly the root, sometimes a child that has grown
         let pid = if rng.chance(3, 4) { parents[0].clone() } else { rng.pick(&parents).clone() };
-        let frames = match truth::parse_log(&store.log_bytes()) {
+        let frames = match truth::parse_log(&store.log_bytes_settled()) {
             Ok(f) => f,
             Err(e) => {
                 r.inconclusive(&format!("case {idx}: log unreadable before call: {}", e.detail));
@@ -1040,10 +1040,10 @@ fn one_case(cfg: &Cfg, r: &mut Report, rt: &tokio::runtime::Runtime, rng: &mut R
                     };
                     stats.c("restarts");
                 }
-                let before = store.log_bytes().len();
+                let before = store.log_bytes_settled().len();
                 match app.store().append_message(&child, "rv".into(), "rv".into(), format!("first on child {c}")) {
                     Ok(mid) => {
-                        let after = store.log_bytes();
+                        let after = store.log_bytes_settled();
                         let added = truth::parse_log(&after[before.min(after.len())..]).unwrap_or_default();
                         let ok = added.len() == 1 && added[0].id() == mid && added[0].stream_id() == child && added[0].seq() == 2;
                         if ok {
@@ -1087,7 +1087,7 @@ fn one_case(cfg: &Cfg, r: &mut Report, rt: &tokio::runtime::Runtime, rng: &mut R
     // whole-log sanity at the end (seq 0,1,2,… per stream, unique ids)
     let _ = had_violation;
     {
-        match truth::parse_log(&store.log_bytes()) {
+        match truth::parse_log(&store.log_bytes_settled()) {
             Ok(frames) => {
                 if let Err(e) = truth::check_streams(&frames) {
                     r.violation(
@@ -1131,7 +1131,7 @@ fn directed(_cfg: &Cfg, r: &mut Report, rt: &tokio::runtime::Runtime, stats: &mu
     }
     let missing = "0123456789abcdef0123456789abcdef0123456789abcdef0123456789abcdef".to_string();
     for http in [false, true] {
-        let frames = truth::parse_log(&store.log_bytes()).unwrap_or_default();
+        let frames = truth::parse_log(&store.log_bytes_settled()).unwrap_or_default();
         let Some(view) = parent_view(&frames, &root) else {
             r.inconclusive("directed: parent stream missing");
             return;
